@@ -45,7 +45,7 @@ func (s *c13Script) spawn(op c13Op) *c13Call {
 		defer s.wg.Done()
 		call.inv = c13Tick()
 		atomic.AddInt32(&s.started, 1)
-		call.res = c13Apply(s.e, call.op)
+		call.res = c13ApplyHold(s.e, call.op, &call.held)
 		call.ret = c13Tick()
 		atomic.StoreInt32(&call.done, 1)
 	}()
@@ -598,6 +598,40 @@ var c13Scenarios = []c13Scenario{
 		s.mustEqual(r1, "f", "the reader ran after the parked LoadPolicy")
 		s.mustEqual(r2, "t", "the reader ran after the parked LoadPolicy")
 		s.mustEqual(r3, "t", "the reader ran after the parked LoadPolicy")
+	}},
+	{name: "getters-own-their-result", run: func(sc *c13Setup) {
+		// F38 (repaired): the lists returned by completed GetPolicy / GetNamedPolicy /
+		// GetGroupingPolicy / GetNamedGroupingPolicy calls must not change when other goroutines'
+		// later, completed calls remove or update rules (the unsynchronised getters hand out the
+		// model's own slice, which RemovePolicy shifts and UpdatePolicy overwrites in place).
+		a, b, cc := sc.p("alice", "data1", "read"), sc.p("bob", "data1", "read"), sc.p("carol", "data1", "read")
+		n := sc.p("bob", "data1", sc.spec.own)
+		ga, gb, gc := sc.g("alice", "admin"), sc.g("bob", "admin"), sc.g("carol", "editor")
+		sc.init = [][]string{sc.pl("alice", "data1", "read"), sc.pl("bob", "data1", "read"), sc.pl("carol", "data1", "read"),
+			sc.gl("alice", "admin"), sc.gl("bob", "admin"), sc.gl("carol", "editor")}
+		s := sc.build()
+		np, _ := s.e.GetNamedPolicy("p")
+		gp, _ := s.e.GetGroupingPolicy()
+		ngp, _ := s.e.GetNamedGroupingPolicy("g")
+		wantP, wantG := rulesKey([][]string{a, b, cc}), rulesKey([][]string{ga, gb, gc})
+		g1 := s.seq(c13Kind(c13GetP)) // its returned slice is re-read after quiescence by c13Finish
+		s.mustEqual(g1, wantP, "initial policy")
+		s.mustEqual(s.seq(c13Rem(a)), "t", "listed")
+		g2 := s.seq(c13Kind(c13GetP))
+		s.mustEqual(g2, rulesKey([][]string{b, cc}), "a was removed")
+		s.mustEqual(s.seq(c13Upd(b, n)), "t", "listed")
+		s.mustEqual(s.seq(c13RemGr(ga)), "t", "listed")
+		s.mustEqual(s.seq(c13Kind(c13GetP)), rulesKey([][]string{n, cc}), "b was updated")
+		for _, h := range []struct {
+			what string
+			got  [][]string
+			want string
+		}{{"GetPolicy", g1.held, wantP}, {"GetPolicy (second call)", g2.held, rulesKey([][]string{b, cc})},
+			{"GetNamedPolicy(p)", np, wantP}, {"GetGroupingPolicy", gp, wantG}, {"GetNamedGroupingPolicy(g)", ngp, wantG}} {
+			if rulesKey(h.got) != h.want {
+				s.bad("the list returned by a completed %s read %s when it returned and reads %s after later RemovePolicy/UpdatePolicy/RemoveGroupingPolicy calls of other goroutines: the result aliases the enforcer's internal storage (F38)", h.what, h.want, rulesKey(h.got))
+			}
+		}
 	}},
 }
 
